@@ -6,6 +6,7 @@
 //	                          interval monitor) go to tracefile, one line per concurrency op
 //	mutex gen <n>             seeded generator of op lines (VERIF_SEED)
 //	mutex oracle <n>          the property's clauses evaluated on the implementation alone
+//	mutex facts <repo>        go/ast synchronisation skeleton of Lock/Unlock/runGo as Lean data
 //
 // Line protocol: see /verif/lean/Driver/Mutex.lean.  Every concurrency case runs against a fresh
 // SharedMutex; holders are goroutines; the build tag `verif` turns
@@ -19,6 +20,10 @@ import (
 	"bufio"
 	"bytes"
 	"fmt"
+	"go/ast"
+	"go/parser"
+	"go/token"
+	"go/types"
 	"os"
 	"runtime"
 	"sort"
@@ -45,6 +50,9 @@ import (
 )
 
 const watchdog = 20 * time.Second
+
+// after this many watchdog expiries a driver stops executing cases (the rest is reported `skipped`)
+const maxHangs = 2
 
 // ---------------------------------------------------------------------------------------------
 // goroutine introspection
@@ -765,12 +773,21 @@ func drive(tracePath string) {
 	in.Buffer(make([]byte, 1<<20), 1<<26)
 	out := bufio.NewWriter(os.Stdout)
 	defer out.Flush()
+	hangs := 0
 	for in.Scan() {
 		line := in.Text()
 		if line == "" || strings.HasPrefix(line, "#") {
 			continue
 		}
+		if hangs >= maxHangs {
+			// every hang costs a full watchdog period: after a few of them the verdict is settled
+			fmt.Fprintln(out, "skipped")
+			continue
+		}
 		res, trace := runOp(line)
+		if strings.Contains(res, "hang") || strings.Contains(res, "!timeout") {
+			hangs++
+		}
 		fmt.Fprintln(out, res)
 		out.Flush()
 		if tw != nil && trace != "" {
@@ -901,7 +918,10 @@ func genOverlap(r *hx.Rand) string {
 }
 
 var lockAtoms = []string{"a", "b", "res1", "_x", "A9", "@a", "@g_1", "@", "1a", "a-b", "", " ", "a b", "é", "@@a", "a@", "é", "\xff"}
-var lockPads = []string{"", "", "", " ", "\t", "\n", "  ", " \n\t"}
+var lockPads = []string{"", "", "", "", " ", "\t", "\n", "  ", " \n\t"}
+
+// not in pipc's cutset: a list padded with one of these must be refused
+var lockBadPads = []string{"\r", "\v", "\f", "\u00a0", "\u0085 "}
 
 func genLockList(r *hx.Rand) string {
 	if r.Intn(6) == 0 {
@@ -918,6 +938,11 @@ func genLockList(r *hx.Rand) string {
 			atom = lockAtoms[r.Intn(7)] // valid ones
 		}
 		parts[i] = lockPads[r.Intn(len(lockPads))] + atom + lockPads[r.Intn(len(lockPads))]
+		if r.Intn(30) == 0 {
+			parts[i] = lockBadPads[r.Intn(len(lockBadPads))] + parts[i]
+		} else if r.Intn(30) == 0 {
+			parts[i] += lockBadPads[r.Intn(len(lockBadPads))]
+		}
 	}
 	s := strings.Join(parts, ",")
 	if r.Intn(25) == 0 {
@@ -981,9 +1006,174 @@ func oracle(n int) {
 			fails++
 			fmt.Fprintf(out, "FAIL %s => %s\n", op, res)
 			out.Flush()
+			if fails >= maxHangs {
+				n = i + 1
+				break
+			}
 		}
 	}
 	fmt.Fprintf(out, "oracle cases=%d fails=%d stress=%d overlap=%d rounds=%d\n", n, fails, counts["stress"], counts["overlap"], counts["rounds"])
+}
+
+// ---------------------------------------------------------------------------------------------
+// structural facts (go/ast): the synchronisation skeleton of the three functions the model mirrors,
+// emitted as Lean data and compared with the model's assumptions by `decide` (Goat/Tie/C15.lean)
+
+var factCalls = map[string]bool{"Lock": true, "RLock": true, "Unlock": true, "RUnlock": true, "SliceStable": true,
+	"Slice": true, "Stable": true, "Sort": true, "Strings": true, "get": true, "Yield": true, "Run": true,
+	"waitForTasks": true, "Wait": true, "Close": true}
+
+type skel struct{ out []string }
+
+func (k *skel) calls(n ast.Node) {
+	if n == nil {
+		return
+	}
+	ast.Inspect(n, func(x ast.Node) bool {
+		if _, ok := x.(*ast.FuncLit); ok {
+			return false
+		}
+		c, ok := x.(*ast.CallExpr)
+		if !ok {
+			return true
+		}
+		name := ""
+		switch f := c.Fun.(type) {
+		case *ast.SelectorExpr:
+			name = f.Sel.Name
+		case *ast.Ident:
+			name = f.Name
+		}
+		if !factCalls[name] {
+			return true
+		}
+		// arguments first (evaluation order), then the call itself
+		for _, a := range c.Args {
+			k.calls(a)
+		}
+		t := "call " + types.ExprString(c.Fun)
+		if name == "SliceStable" || name == "Slice" {
+			if len(c.Args) == 2 {
+				t += "(" + types.ExprString(c.Args[0]) + ")"
+				if fl, ok := c.Args[1].(*ast.FuncLit); ok && len(fl.Body.List) == 1 {
+					if r, ok := fl.Body.List[0].(*ast.ReturnStmt); ok && len(r.Results) == 1 {
+						t += " by " + types.ExprString(r.Results[0])
+					}
+				}
+			}
+		} else if len(c.Args) > 0 {
+			as := make([]string, len(c.Args))
+			for i, a := range c.Args {
+				as[i] = types.ExprString(a)
+			}
+			t += "(" + strings.Join(as, ", ") + ")"
+		}
+		k.out = append(k.out, t)
+		return false
+	})
+}
+
+func (k *skel) block(list []ast.Stmt) {
+	for _, st := range list {
+		k.stmt(st)
+	}
+}
+
+func (k *skel) stmt(st ast.Stmt) {
+	switch s := st.(type) {
+	case *ast.BlockStmt:
+		k.block(s.List)
+	case *ast.RangeStmt:
+		k.out = append(k.out, "for range "+types.ExprString(s.X))
+		k.block(s.Body.List)
+		k.out = append(k.out, "end")
+	case *ast.ForStmt:
+		k.out = append(k.out, "for")
+		k.block(s.Body.List)
+		k.out = append(k.out, "end")
+	case *ast.IfStmt:
+		if s.Init != nil {
+			k.stmt(s.Init)
+		}
+		k.calls(s.Cond)
+		k.out = append(k.out, "if "+types.ExprString(s.Cond))
+		k.block(s.Body.List)
+		if s.Else != nil {
+			k.out = append(k.out, "else")
+			k.stmt(s.Else)
+		}
+		k.out = append(k.out, "end")
+	case *ast.DeferStmt:
+		k.out = append(k.out, "defer "+types.ExprString(s.Call.Fun))
+	case *ast.GoStmt:
+		k.out = append(k.out, "go "+types.ExprString(s.Call.Fun))
+	case *ast.ReturnStmt:
+		for _, r := range s.Results {
+			k.calls(r)
+		}
+		k.out = append(k.out, "return")
+	default:
+		k.calls(st)
+	}
+}
+
+func skeletonOf(path, recv, name string) ([]string, error) {
+	fset := token.NewFileSet()
+	f, err := parser.ParseFile(fset, path, nil, 0)
+	if err != nil {
+		return nil, err
+	}
+	for _, d := range f.Decls {
+		fd, ok := d.(*ast.FuncDecl)
+		if !ok || fd.Name.Name != name || fd.Body == nil {
+			continue
+		}
+		r := ""
+		if fd.Recv != nil && len(fd.Recv.List) == 1 {
+			r = types.ExprString(fd.Recv.List[0].Type)
+		}
+		if r != recv {
+			continue
+		}
+		k := &skel{}
+		k.block(fd.Body.List)
+		return k.out, nil
+	}
+	return []string{"missing " + recv + "." + name}, nil
+}
+
+func leanList(name string, xs []string) string {
+	var b strings.Builder
+	fmt.Fprintf(&b, "def %s : List String := [", name)
+	for i, x := range xs {
+		if i > 0 {
+			b.WriteString(",")
+		}
+		b.WriteString("\n  " + strconv.Quote(x))
+	}
+	b.WriteString("]\n")
+	return b.String()
+}
+
+func facts(repo string) {
+	base := repo + "/app/modules/"
+	items := []struct{ lean, file, recv, fn string }{
+		{"sharedMutexLock", base + "commonm/commservices/mutex/mutex.go", "*SharedMutex", "Lock"},
+		{"unlockHandlerUnlock", base + "commonm/commservices/mutex/mutex_hander.go", "*unlockHandler", "Unlock"},
+		{"runnerRunGo", base + "pipelinem/pipservices/runner/runner.go", "*Runner", "runGo"},
+	}
+	fmt.Println("/- GENERATED by `mutex facts` from the Go sources of the repository under test: the ordered")
+	fmt.Println("synchronisation-relevant statements of the functions the C15 model mirrors.  Do not edit. -/")
+	fmt.Println("namespace Goat.Tie.ExtractedC15")
+	for _, it := range items {
+		sk, err := skeletonOf(it.file, it.recv, it.fn)
+		if err != nil {
+			sk = []string{"parse error"}
+		}
+		fmt.Println()
+		fmt.Print(leanList(it.lean, sk))
+	}
+	fmt.Println("\nend Goat.Tie.ExtractedC15")
 }
 
 func main() {
@@ -1004,6 +1194,8 @@ func main() {
 	case "oracle":
 		n, _ := strconv.Atoi(os.Args[2])
 		oracle(n)
+	case "facts":
+		facts(os.Args[2])
 	default:
 		os.Exit(3)
 	}
